@@ -50,6 +50,9 @@ func (d *Data) MergeLabels(v dvid.VersionID, op labels.MergeOp, info dvid.ModInf
 	}
 	dvid.Debugf("Merging %s into label %d ...\n", op.Merged, op.Target)
 
+	d.bodyMutMu.Lock()
+	defer d.bodyMutMu.Unlock()
+
 	d.StartUpdate()
 	defer d.StopUpdate()
 
@@ -205,6 +208,9 @@ func (d *Data) MergeLabels(v dvid.VersionID, op labels.MergeOp, info dvid.ModInf
 //
 // labels.MergeEndEvent occurs at end of merge and transmits labels.DeltaMergeEnd struct.
 func (d *Data) RenumberLabels(v dvid.VersionID, origLabel, newLabel uint64, info dvid.ModInfo) (mutID uint64, err error) {
+	d.bodyMutMu.Lock()
+	defer d.bodyMutMu.Unlock()
+
 	var isPresent bool
 	isPresent, err = d.labelIndexExists(v, newLabel)
 	if err != nil {
@@ -401,6 +407,9 @@ func (d *Data) CleaveLabel(v dvid.VersionID, label uint64, info dvid.ModInfo, r 
 	if err = d.PublishKafkaMsg(jsonBytes); err != nil {
 		dvid.Errorf("error on sending cleave op to kafka: %v\n", err)
 	}
+
+	d.bodyMutMu.Lock()
+	defer d.bodyMutMu.Unlock()
 
 	d.StartUpdate()
 	defer d.StopUpdate()
@@ -725,6 +734,9 @@ func (d *Data) SplitLabels(v dvid.VersionID, fromLabel uint64, r io.ReadCloser, 
 		return
 	}
 
+	d.bodyMutMu.Lock()
+	defer d.bodyMutMu.Unlock()
+
 	// read label index and do simple check on split size
 	shard := fromLabel % numIndexShards
 	indexMu[shard].Lock()
@@ -916,6 +928,9 @@ func (d *Data) SplitSupervoxel(v dvid.VersionID, svlabel, splitlabel, remainlabe
 	if splitSize == 0 {
 		dvid.Infof("split on supervoxel %d -> %d was given split size of 0\n", svlabel, remainlabel)
 	}
+
+	d.bodyMutMu.Lock()
+	defer d.bodyMutMu.Unlock()
 
 	// read parent label index and do simple check on split size
 	var mapping *VCache
